@@ -600,7 +600,7 @@ Section Sim.
       + (* long literal run: extra length bytes *)
         unfold read_len in Hrl1. assert (E15' : (tok / 16 =? 15) = true) by fin. rewrite E15' in Hrl1.
         destruct (rvl_sim r ll r1 (ip s + 1) (iend - RUN_MASK) true (ok s && rd_src iend (ip s) 1) Hrl1 Hsr) as (_ & _ & kf' & Hr); [fin | fin | fin |].
-        rewrite Hr. cbv beta iota. fold p1.
+        rewrite Hr. cbv beta iota. unfold byte. fold p1.
         replace (tok / 16 + (ll - 15)) with (Z.of_nat (length lits)) by fin.
         eapply is_cont_mono.
         * apply (safe_lit_mid_sim (mkD p1 (op s) (dm s) kf') tok lits o1 o2 r3 ml r4 rout rout1); cbn [ip op dm]; unfold byte in *; try assumption; try lia; try (destruct partial; lia).
@@ -662,7 +662,7 @@ Section Sim.
     destruct (tok / 16 =? RUN_MASK) eqn:E15; cbv beta iota.
     - unfold read_len in Hrl1. assert (E15' : (tok / 16 =? 15) = true) by fin. rewrite E15' in Hrl1.
       destruct (rvl_sim r ll r1 (ip s + 1) (iend - RUN_MASK) true (ok s && rd_src iend (ip s) 1) Hrl1 Hsr) as (_ & _ & kf' & Hr); [fin | fin | fin |].
-      rewrite Hr. cbv beta iota. fold p1.
+      rewrite Hr. cbv beta iota. unfold byte. fold p1.
       replace (tok / 16 + (ll - 15)) with (Z.of_nat (length lits)) by fin.
       apply Hlit.
     - assert (Hlt15 : tok / 16 < 15) by fin.
@@ -1253,7 +1253,7 @@ Section Sim.
     - destruct (tok / 16 =? RUN_MASK) eqn:E15; cbv beta iota.
       + unfold read_len in Hrl1. assert (E15' : (tok / 16 =? 15) = true) by fin. rewrite E15' in Hrl1.
         destruct (rvl_sim r ll r1 (ip s + 1) (iend - RUN_MASK) true (ok s && rd_src iend (ip s) 1) Hrl1 Hsr) as (_ & _ & kf' & Hr); [fin | fin | fin |].
-        rewrite Hr. cbv beta iota. fold p1.
+        rewrite Hr. cbv beta iota. unfold byte. fold p1.
         replace (tok / 16 + (ll - 15)) with (Z.of_nat (length lits)) by fin.
         eapply is_cod_mono.
         * apply (safe_lit_part (mkD p1 (op s) (dm s) kf') tok lits o1 o2 r3 ml r4 rout rout1); cbn [ip op dm]; unfold byte in *; try assumption; try lia.
@@ -1341,7 +1341,7 @@ Section Sim.
     destruct (tok / 16 =? RUN_MASK) eqn:E15; cbv beta iota.
     - unfold read_len in Hrl1. assert (E15' : (tok / 16 =? 15) = true) by fin. rewrite E15' in Hrl1.
       destruct (rvl_sim r ll r1 (ip s + 1) (iend - RUN_MASK) true (ok s && rd_src iend (ip s) 1) Hrl1 Hsr) as (_ & _ & kf' & Hr); [fin | fin | fin |].
-      rewrite Hr. cbv beta iota. fold p1.
+      rewrite Hr. cbv beta iota. unfold byte. fold p1.
       replace (tok / 16 + (ll - 15)) with (Z.of_nat (length lits)) by fin.
       apply Hlit.
     - assert (Hlt15 : tok / 16 < 15) by fin.
@@ -1575,6 +1575,254 @@ Section Sim.
           -- apply (fast_match_sim (mkD (i + 2) o m1 (kf && rd_src iend i 2)) (o1 + 256 * o2) (ml + 4)); cbn [ip op dm]; try assumption; try fin.
           -- intros s' Hv. pose proof Hv as (H1 & _). cbn [ip] in H1.
              destruct (Hfin _ _ _ H1 Hv) as [H2 H3]. repeat split; try assumption; try lia. rewrite H1. exact Hs5'.
+  Qed.
+
+  Lemma wild32_in_lits m p o lits :
+    src_at srcm p lits ->
+    forall j, (j < length lits)%nat ->
+      get (wild32_in srcm p m o (o + Z.of_nat (length lits))) (o + Z.of_nat j) = nth j lits 0.
+  Proof.
+    intros Hs j Hj. unfold wild32_in. apply blit_lits; [exact Hs| |exact Hj].
+    pose proof (wild_iters_cover 32 o (o + Z.of_nat (length lits))). lia.
+  Qed.
+  Lemma wild32_in_same_below m p o e : same_below m (wild32_in srcm p m o e) o.
+  Proof. unfold wild32_in. apply blit_same_below. Qed.
+
+  (* ---------- one iteration of the fast loop on a complete sequence ---------- *)
+  Lemma fast_top_seq_sim s tok r ll r1 lits o1 o2 r3 ml r4 rout rout1 :
+    bytes (tok :: r) -> src_at srcm (ip s) (tok :: r) -> 0 <= ip s ->
+    ip s + Z.of_nat (length (tok :: r)) <= iend ->
+    read_len (tok / 16) r = Some (ll, r1) -> take (Z.to_nat ll) r1 = Some (lits, o1 :: o2 :: r3) ->
+    read_len (tok mod 16) r3 = Some (ml, r4) -> (6 <= length r4)%nat ->
+    out_at (vget (dm s)) (op s) rout -> Z.of_nat (length rout) <= op s - lowPrefix + hroom -> 0 <= op s ->
+    apply_seq rout (mkSeq lits (o1 + 256 * o2) (ml + 4)) = Some rout1 ->
+    op s + ll <= oend - 12 ->
+    (if partial then op s + ll + (ml + 4) <= oend - 12 else op s + ll + (ml + 4) <= oend - 5) ->
+    is_cont_any (fast_top partial dict srcm iend oend lowPrefix rlow dictm dictSize s)
+            (fun s' => ip s' + Z.of_nat (length r4) = ip s + Z.of_nat (length (tok :: r)) /\
+                       src_at srcm (ip s') r4 /\ bytes r4 /\
+                       op s' = op s + ll + (ml + 4) /\ out_at (vget (dm s')) (op s') rout1).
+  Proof.
+    intros Hb Hs Hip Hie Hrl1 Htk Hrl2 Hr4 O Hlen Hop Happ Hroom1 Hroom2.
+    unfold byte in *.
+    destruct (bytes_cons _ _ Hb) as [Htok Hbr].
+    destruct (src_at_cons _ _ _ _ Hs) as [Htokm Hsr].
+    destruct (nibbles tok Htok) as [Hn1 Hn2].
+    cbn [length] in Hie.
+    destruct (read_len_suffix _ _ _ _ _ Hn1 Hrl1 Hbr Hsr) as (Hl1 & Hll & Hnoext & Hs1 & Hb1).
+    unfold byte in *.
+    set (p1 := ip s + 1 + (Z.of_nat (length r) - Z.of_nat (length r1))) in *.
+    destruct (take_spec _ _ _ _ Htk) as [Er1 Hlits]. unfold byte in *.
+    assert (Ell : ll = Z.of_nat (length lits)) by lia.
+    rewrite Er1 in Hs1, Hb1.
+    assert (Hlr1 : length r1 = (length lits + S (S (length r3)))%nat).
+    { rewrite Er1, app_length. reflexivity. }
+    destruct (bytes_app _ _ Hb1) as [_ Hb2].
+    destruct (bytes_cons _ _ Hb2) as [Ho1 Hb3]. destruct (bytes_cons _ _ Hb3) as [Ho2 Hb4].
+    unfold apply_seq in Happ. cbn [s_lits s_off s_mlen] in Happ.
+    destruct (off_ok (o1 + 256 * o2) && (4 <=? ml + 4)) eqn:Eok; [|discriminate].
+    assert (Hoff : 1 <= o1 + 256 * o2) by (unfold off_ok in Eok; lia).
+    destruct (src_at_app _ _ _ _ Hs1) as [Hsl Hs2].
+    destruct (src_at_cons _ _ _ _ Hs2) as [_ Hs3]. destruct (src_at_cons _ _ _ _ Hs3) as [_ Hs4].
+    destruct (read_len_suffix _ _ _ _ _ Hn2 Hrl2 Hb4 Hs4) as (Hl2 & Hml & Hnoext2 & Hs5 & Hb5).
+    assert (Hcm : copy_match (rev lits ++ rout) (Z.to_nat (o1 + 256 * o2)) (Z.to_nat (ml + 4)) = Some rout1) by exact Happ.
+    (* the tail shared by the two literal-copy variants of the fast loop *)
+    assert (Hfo : forall m1 kf, same_below (dm s) m1 (op s) ->
+               (forall j, (j < length lits)%nat -> get m1 (op s + Z.of_nat j) = nth j lits 0) ->
+               is_cont_any (fast_offset partial dict srcm iend oend lowPrefix rlow dictm dictSize
+                              (mkD (p1 + Z.of_nat (length lits)) (op s + Z.of_nat (length lits)) m1 kf) tok)
+                 (fun s' => ip s' + Z.of_nat (length r4) = ip s + Z.of_nat (S (length r)) /\
+                            src_at srcm (ip s') r4 /\ bytes r4 /\
+                            op s' = op s + ll + (ml + 4) /\ out_at (vget (dm s')) (op s') rout1)).
+    { intros m1 kf S1 L1.
+      eapply is_cont_any_mono.
+      - apply (fast_offset_sim (p1 + Z.of_nat (length lits)) (op s + Z.of_nat (length lits)) m1 kf tok o1 o2 r3 ml r4 (rev lits ++ rout) rout1);
+          unfold byte in *; try assumption; try lia.
+        + cbn [length]. unfold p1. lia.
+        + apply lits_out_v with (m := dm s); assumption.
+        + rewrite app_length, rev_length. lia.
+        + destruct partial; lia.
+      - cbn beta. unfold byte in *. intros s' (H1 & H2 & H3 & H4 & H5).
+        split; [unfold p1 in H1; lia|]. split; [exact H2|]. split; [exact Hb5|]. split; [lia | exact H5]. }
+    (* the safe_lit exits of the fast loop *)
+    assert (Hsl' : forall kf,
+               is_cont_any (safe_lit partial dict srcm iend oend lowPrefix rlow dictm dictSize (mkD p1 (op s) (dm s) kf) tok (Z.of_nat (length lits)))
+                 (fun s' => ip s' + Z.of_nat (length r4) = ip s + Z.of_nat (S (length r)) /\
+                            src_at srcm (ip s') r4 /\ bytes r4 /\
+                            op s' = op s + ll + (ml + 4) /\ out_at (vget (dm s')) (op s') rout1)).
+    { intros kf. eapply is_cont_any_mono.
+      - apply is_cont_is_any.
+        apply (safe_lit_mid_sim (mkD p1 (op s) (dm s) kf) tok lits o1 o2 r3 ml r4 rout rout1); cbn [ip op dm]; unfold byte in *; try assumption; try lia.
+        + rewrite app_length. cbn [length]. unfold p1. lia.
+        + destruct partial; lia.
+      - cbn [ip op dm]. unfold byte in *. intros s' (H1 & H2 & H3 & H4 & H5).
+        split; [unfold p1 in H1; lia|]. split; [exact H2|]. split; [exact Hb5|]. split; [lia | exact H5]. }
+    unfold fast_top. cbv zeta. rewrite Htokm. cbn [length].
+    destruct (tok / 16 =? RUN_MASK) eqn:E15; cbv beta iota.
+    - unfold read_len in Hrl1. assert (E15' : (tok / 16 =? 15) = true) by fin. rewrite E15' in Hrl1.
+      destruct (rvl_sim r ll r1 (ip s + 1) (iend - RUN_MASK) true (ok s && rd_src iend (ip s) 1) Hrl1 Hsr) as (_ & _ & kf' & Hr); [fin | fin | fin |].
+      rewrite Hr. cbv beta iota. unfold byte. fold p1.
+      replace (tok / 16 + (ll - 15)) with (Z.of_nat (length lits)) by fin.
+      destruct ((op s + Z.of_nat (length lits) >? oend - 32) || (p1 + Z.of_nat (length lits) >? iend - 32)) eqn:Enear; cbv beta iota.
+      + apply Hsl'.
+      + apply Hfo; [apply wild32_in_same_below | apply wild32_in_lits; exact Hsl].
+    - assert (Hlt15 : tok / 16 < 15) by fin.
+      destruct (Hnoext Hlt15) as [Ell' Er].
+      assert (Ep1 : p1 = ip s + 1) by (unfold p1; rewrite Er; lia).
+      replace (tok / 16) with (Z.of_nat (length lits)) by lia.
+      rewrite <- Ep1.
+      destruct (p1 <=? iend - (16 + 1)) eqn:E17; cbv beta iota.
+      + apply Hfo; [apply blit_same_below | apply blit_lits; [exact Hsl | lia]].
+      + apply Hsl'.
+  Qed.
+
+  (* the final literal run: [safe_lit] on a state whose literals end the input *)
+  Lemma safe_lit_last_sim p1 o m kf tok lits rout :
+    partial = false -> src_at srcm p1 lits -> p1 + Z.of_nat (length lits) = iend ->
+    out_at (vget m) o rout -> 0 <= o -> o + Z.of_nat (length lits) <= oend ->
+    is_done (safe_lit partial dict srcm iend oend lowPrefix rlow dictm dictSize (mkD p1 o m kf) tok (Z.of_nat (length lits)))
+            (fun s' => op s' = o + Z.of_nat (length lits) /\ out_at (vget (dm s')) (op s') (rev lits ++ rout)).
+  Proof.
+    intros Hp Hs1 Ep1 O Hop Hroom.
+    unfold safe_lit. cbv zeta. cbn [ip op dm]. rewrite Hp. cbn [negb andb orb].
+    hd. hd.
+    cbn [is_done op dm]. split; [lia|].
+    rewrite Nat2Z.id.
+    apply lits_out_v with (m := m); try assumption.
+    - apply blit_same_below.
+    - apply blit_lits; [exact Hs1 | lia].
+  Qed.
+
+  Lemma fast_top_last_sim s tok r ll r1 lits rout :
+    partial = false ->
+    bytes (tok :: r) -> src_at srcm (ip s) (tok :: r) -> 0 <= ip s ->
+    ip s + Z.of_nat (length (tok :: r)) = iend ->
+    read_len (tok / 16) r = Some (ll, r1) -> take (Z.to_nat ll) r1 = Some (lits, []) ->
+    out_at (vget (dm s)) (op s) rout -> 0 <= op s -> op s + ll <= oend ->
+    is_done (fast_top partial dict srcm iend oend lowPrefix rlow dictm dictSize s)
+            (fun s' => op s' = op s + ll /\ out_at (vget (dm s')) (op s') (rev lits ++ rout)).
+  Proof.
+    intros Hp Hb Hs Hip Hie Hrl1 Htk O Hop Hroom.
+    unfold byte in *.
+    destruct (bytes_cons _ _ Hb) as [Htok Hbr].
+    destruct (src_at_cons _ _ _ _ Hs) as [Htokm Hsr].
+    destruct (nibbles tok Htok) as [Hn1 Hn2].
+    cbn [length] in Hie.
+    destruct (read_len_suffix _ _ _ _ _ Hn1 Hrl1 Hbr Hsr) as (Hl1 & Hll & Hnoext & Hs1 & Hb1).
+    unfold byte in *.
+    set (p1 := ip s + 1 + (Z.of_nat (length r) - Z.of_nat (length r1))) in *.
+    destruct (take_spec _ _ _ _ Htk) as [Er1 Hlits]. unfold byte in *.
+    rewrite app_nil_r in Er1.
+    assert (Ell : ll = Z.of_nat (length lits)) by lia.
+    assert (Hlr1 : length r1 = length lits) by (rewrite Er1; reflexivity).
+    rewrite Er1 in Hs1.
+    assert (Ep1 : p1 + Z.of_nat (length lits) = iend) by (unfold p1; lia).
+    assert (Hlit : forall kf,
+      is_done (safe_lit partial dict srcm iend oend lowPrefix rlow dictm dictSize (mkD p1 (op s) (dm s) kf) tok (Z.of_nat (length lits)))
+              (fun s' => op s' = op s + ll /\ out_at (vget (dm s')) (op s') (rev lits ++ rout))).
+    { intros kf. rewrite Ell. apply safe_lit_last_sim; try assumption; lia. }
+    unfold fast_top. cbv zeta. rewrite Htokm.
+    destruct (tok / 16 =? RUN_MASK) eqn:E15; cbv beta iota.
+    - unfold read_len in Hrl1. assert (E15' : (tok / 16 =? 15) = true) by fin. rewrite E15' in Hrl1.
+      destruct (rvl_sim r ll r1 (ip s + 1) (iend - RUN_MASK) true (ok s && rd_src iend (ip s) 1) Hrl1 Hsr) as (_ & _ & kf' & Hr); [fin | fin | fin |].
+      rewrite Hr. cbv beta iota. unfold byte. fold p1.
+      replace (tok / 16 + (ll - 15)) with (Z.of_nat (length lits)) by fin.
+      assert (En : (op s + Z.of_nat (length lits) >? oend - 32) || (p1 + Z.of_nat (length lits) >? iend - 32) = true) by lia.
+      rewrite En. apply Hlit.
+    - assert (Hlt15 : tok / 16 < 15) by fin.
+      destruct (Hnoext Hlt15) as [Ell' Er].
+      assert (Ep1' : p1 = ip s + 1) by (unfold p1; rewrite Er; lia).
+      rewrite <- Ep1'. replace (tok / 16) with (Z.of_nat (length lits)) by lia.
+      assert (E17 : (p1 <=? iend - (16 + 1)) = false) by lia. rewrite E17.
+      apply Hlit.
+  Qed.
+
+  (* ---------- the decoding loop started in the fast loop ---------- *)
+  Lemma run_sim_fast : forall f (bs : list Z) ss (last : list Z), parse_seqs f bs = Some (ss, last) ->
+    forall rout rout' s fuel (fast : bool),
+    partial = false ->
+    apply_seqs rout ss = Some rout' -> end_ok ss last = true ->
+    bytes bs -> src_at srcm (ip s) bs -> 0 <= ip s -> ip s + Z.of_nat (length bs) = iend ->
+    out_at (vget (dm s)) (op s) rout -> Z.of_nat (length rout) <= op s - lowPrefix + hroom -> 0 <= op s ->
+    op s + total_len ss last <= oend -> (length bs < fuel)%nat ->
+    exists s', run partial dict srcm iend oend lowPrefix rlow dictm dictSize fuel fast s
+               = (op s + total_len ss last, s')
+               /\ out_at (vget (dm s')) (op s + total_len ss last) (rev last ++ rout').
+  Proof.
+    induction f as [|f IH]; intros bs ss last H rout rout' s fuel fast Hp Happ Hend Hb Hs Hip Hie O Hlen Hop Hroom Hfuel.
+    { discriminate. }
+    destruct fast.
+    2:{ eapply run_sim; eauto. }
+    rewrite parse_seqs_S in H.
+    destruct bs as [|tok r]; [discriminate|].
+    destruct (read_len (tok / 16) r) as [[ll r1]|] eqn:E1; [|discriminate].
+    destruct (take (Z.to_nat ll) r1) as [[lits r2]|] eqn:E2; [|discriminate].
+    destruct fuel as [|fuel]; [lia|].
+    cbn [run].
+    destruct r2 as [|o1 [|o2 r3]]; [| discriminate |].
+    - assert (Hss : ss = []) by congruence. assert (Hla : lits = last) by congruence. clear H. subst ss last.
+      cbn [apply_seqs] in Happ. assert (Hr' : rout = rout') by congruence. subst rout'.
+      cbn [total_len fold_right] in *.
+      assert (Ell : ll = Z.of_nat (length lits)).
+      { destruct (take_spec _ _ _ _ E2) as [_ Hl]. destruct (bytes_cons _ _ Hb) as [Htok Hbr].
+        destruct (nibbles tok Htok) as [Hn1 _].
+        destruct (src_at_cons _ _ _ _ Hs) as [_ Hsr].
+        destruct (read_len_suffix _ _ _ _ _ Hn1 E1 Hbr Hsr) as (_ & Hll & _). unfold byte in *. lia. }
+      pose proof (fast_top_last_sim s tok r ll r1 lits rout Hp Hb Hs Hip Hie E1 E2 O Hop) as HL.
+      destruct (fast_top partial dict srcm iend oend lowPrefix rlow dictm dictSize s) as [f' s'|s'|s'];
+        cbn [is_done] in HL; try (exfalso; apply HL; lia).
+      destruct HL as [H1 H2]; [lia|].
+      exists s'. rewrite H1, Ell. split; [reflexivity|]. rewrite <- Ell, <- H1. exact H2.
+    - destruct (read_len (tok mod 16) r3) as [[ml r4]|] eqn:E3; [|discriminate].
+      destruct (parse_seqs f r4) as [[ss' last']|] eqn:E4; [|discriminate].
+      assert (Hss : mkSeq lits (o1 + 256 * o2) (ml + 4) :: ss' = ss) by congruence.
+      assert (Hlast : last' = last) by congruence. clear H. subst ss last.
+      cbn [apply_seqs] in Happ.
+      destruct (apply_seq rout (mkSeq lits (o1 + 256 * o2) (ml + 4))) as [rout1|] eqn:Eapp; [|discriminate].
+      pose proof (apply_seqs_mlen _ _ _ Happ) as Fml.
+      assert (Hml0 : 0 <= ml + 4).
+      { unfold apply_seq in Eapp. cbn [s_off s_mlen] in Eapp. destruct (off_ok (o1 + 256 * o2) && (4 <=? ml + 4)) eqn:E; [lia|discriminate]. }
+      destruct (end_room ss' (mkSeq lits (o1 + 256 * o2) (ml + 4)) last' Hend) as (H5 & H12 & Hend').
+      { constructor; [cbn [s_mlen]; lia | exact Fml]. }
+      cbn [s_mlen] in H12.
+      pose proof (total_len_ge ss' last' Fml) as Htl.
+      pose proof (parse_seqs_len _ _ _ _ E4) as Hr4.
+      cbn [total_len fold_right s_lits s_mlen] in Hroom. fold (total_len ss' last') in Hroom.
+      assert (Ell : ll = Z.of_nat (length lits)).
+      { destruct (take_spec _ _ _ _ E2) as [_ Hl]. destruct (bytes_cons _ _ Hb) as [Htok Hbr].
+        destruct (nibbles tok Htok) as [Hn1 _].
+        destruct (src_at_cons _ _ _ _ Hs) as [_ Hsr].
+        destruct (read_len_suffix _ _ _ _ _ Hn1 E1 Hbr Hsr) as (_ & Hll & _). unfold byte in *. lia. }
+      assert (Hlen1 : length rout1 = (length rout + length lits + Z.to_nat (ml + 4))%nat).
+      { unfold apply_seq in Eapp. cbn [s_lits s_off s_mlen] in Eapp.
+        destruct (off_ok (o1 + 256 * o2) && (4 <=? ml + 4)); [|discriminate].
+        apply copy_match_length in Eapp. rewrite app_length, rev_length in Eapp. unfold byte in *. lia. }
+      assert (HS : is_cont_any (fast_top partial dict srcm iend oend lowPrefix rlow dictm dictSize s)
+            (fun s' => ip s' + Z.of_nat (length r4) = ip s + Z.of_nat (length (tok :: r)) /\
+                       src_at srcm (ip s') r4 /\ bytes r4 /\
+                       op s' = op s + ll + (ml + 4) /\ out_at (vget (dm s')) (op s') rout1)).
+      { apply (fast_top_seq_sim s tok r ll r1 lits o1 o2 r3 ml r4 rout rout1); try assumption; unfold byte in *; try lia; try (rewrite Hp; lia). }
+      destruct (fast_top partial dict srcm iend oend lowPrefix rlow dictm dictSize s) as [f' s'|s'|s'];
+        cbn [is_cont_any] in HS; try (exfalso; exact HS).
+      destruct HS as (Hi' & Hs' & Hb' & Ho' & O').
+      assert (Hshr : (length r4 + 2 <= length r)%nat).
+      { pose proof (read_len_shorter _ _ _ _ E1). pose proof (read_len_shorter _ _ _ _ E3).
+        destruct (take_spec _ _ _ _ E2) as [Er1 _]. unfold byte in *.
+        assert (length r1 = (length lits + S (S (length r3)))%nat) by (rewrite Er1, app_length; reflexivity). lia. }
+      cbn [length] in Hi', Hie, Hfuel.
+      destruct (IH r4 ss' last' E4 rout1 rout' s' fuel f' Hp Happ Hend' Hb' Hs') as (s'' & Hrun & Hout).
+      + unfold byte in *; lia.
+      + unfold byte in *; lia.
+      + exact O'.
+      + unfold byte in *; lia.
+      + unfold byte in *; lia.
+      + unfold byte in *; lia.
+      + unfold byte in *; lia.
+      + exists s''. rewrite Hrun. split.
+        * f_equal. cbn [total_len fold_right s_lits s_mlen]. fold (total_len ss' last'). lia.
+        * cbn [total_len fold_right s_lits s_mlen]. fold (total_len ss' last').
+          replace (op s + (Z.of_nat (length lits) + (ml + 4) + total_len ss' last')) with (op s' + total_len ss' last') by lia.
+          exact Hout.
   Qed.
 
 End Sim.
